@@ -438,11 +438,13 @@ Fixpoint eval (p : prog) (n : nat) (s : env) (e : expr) {struct n} : res * env :
         bindv (eval p n s e1) (fun v s1 =>
           match v with
           | VInt z =>
-              if z <? 0 then eval p n s1 dflt
-              else match nth_error arms (Z.to_nat z) with
-                   | Some body => eval p n s1 body
-                   | None => eval p n s1 dflt
-                   end
+              (* the range test comes first: [Z.to_nat] of a large felt must never be computed *)
+              if (0 <=? z) && (z <? Z.of_nat (length arms)) then
+                match nth_error arms (Z.to_nat z) with
+                | Some body => eval p n s1 body
+                | None => eval p n s1 dflt
+                end
+              else eval p n s1 dflt
           | _ => stuck s1
           end)
     | EIf c e1 e2 =>
@@ -548,11 +550,13 @@ Fixpoint eval (p : prog) (n : nat) (s : env) (e : expr) {struct n} : res * env :
         bindv (eval p n s i) (fun iv s1 =>
           match iv, lookup x s1 with
           | VInt z, Some (VArr l) =>
-              if z <? 0 then stuck s1 else
-              match nth_error l (Z.to_nat z) with
-              | Some w => (RVal w, s1)
-              | None => (RPanic [short "Index out of bounds"], s1)
-              end
+              if z <? 0 then stuck s1
+              else if z <? Z.of_nat (length l) then
+                match nth_error l (Z.to_nat z) with
+                | Some w => (RVal w, s1)
+                | None => stuck s1
+                end
+              else (RPanic [short "Index out of bounds"], s1)
           | _, _ => stuck s1
           end)
     | ESnap e1 => eval p n s e1
